@@ -26,9 +26,9 @@ static void sec_selftest(Ctx& c, uint64_t idx) {
     c.obs("selftest: 1-form long double vs float128 [rad]", d, J().f("f", f).f("lat1", lat1).f("azi", azi).f("s", s));
     c.obs("selftest: float128 1-form vs float128 ref_geod S12 [rad]", dq, J().f("f", f).f("lat1", lat1).f("azi", azi).f("s", s));
     // must be negligible against the tolerance the area is judged with on this ellipsoid (documented position accuracy x authalic radius)
-    double tolA = gh::doc_exact(1 - f) * gh::quarter_meridian(a, f) / 1e7 * std::sqrt((double)E.c2);
+    double tolA = gh::doc_exact(1 - f) * gh::quarter_meridian(a, f) / 1e7 * std::sqrt((double)E.c2) * std::max(1.0, s / (M_PI * a * std::min(1.0, 1 - f)));   // as judged: x max(1, length / half circuit)
     c.obs("selftest: 1-form long double vs float128 [fraction of the per-edge area tolerance]", d * (double)E.c2 / tolA);
-    if (!(d * (double)E.c2 < 0.01 * tolA)) c.herr("oracle self-test failed: 1-form long double vs float128 differ by " + std::to_string(d * (double)E.c2) + " m^2 (f=" + std::to_string(f) + ")");
+    if (!(d * (double)E.c2 < 0.02 * tolA)) c.herr("oracle self-test failed: 1-form long double vs float128 differ by " + std::to_string(d * (double)E.c2) + " m^2 (f=" + std::to_string(f) + ")");
     if (!(dq < 1e-25)) c.herr("oracle self-test failed: float128 1-form vs ref_geod S12 differ");
   } else if (mode == 2) {
     // (c) sphere: reference chain (Newton edges + 1-form) against Gauss-Bonnet with turning angles from vertex vectors
